@@ -463,7 +463,11 @@ class InProtocolBase(ProtocolMixin):
                 month = int(match.group('month'))
                 day = int(match.group('day'))
 
-                return date(year, month, day)
+                try:
+                    return date(year, month, day)
+                except ValueError as e:
+                    # e.g. month must be in 1..12
+                    raise ValidationError(string, "%%r: %s" % (e,))
 
             raise ValidationError(string)
 
